@@ -36,7 +36,12 @@ class Collector:
     def ev(self, n: int = 1) -> None:
         self.evaluations += n
 
+    DISTINCT_CAP = 1_000_000     # per shard: beyond it the count is a lower bound (counter distinct_cap_reached says so)
+
     def nontrivial(self, *key) -> None:
+        if len(self.distinct) >= self.DISTINCT_CAP:
+            self.counters['distinct_cap_reached_extra_cases_not_hashed'] += 1
+            return
         self.distinct.add(common.h16(*key))
 
     def count(self, name: str, n: int = 1) -> None:
